@@ -4,7 +4,11 @@ package gremfam
 // part in the verdict.
 
 import (
+	"bytes"
 	"context"
+	"fmt"
+	"os"
+	"path/filepath"
 	"reflect"
 
 	"deps.dev/util/resolve"
@@ -16,6 +20,7 @@ import (
 
 // c12StaticClasses labels what the case contains, before anything is run.
 func c12StaticClasses(c c12Case, ix *universe.Index, cls map[string]bool) {
+	c12ChainClasses(c, cls)
 	links := universe.AdvisoryLinks(c.Vulns)
 	linked := map[[2]int]bool{}
 	for _, l := range links {
@@ -106,6 +111,112 @@ func c12StaticClasses(c c12Case, ix *universe.Index, cls map[string]bool) {
 	}
 }
 
+// c12ChainClasses labels the chain of local parent poms of a Maven manifest.
+func c12ChainClasses(c c12Case, cls map[string]bool) {
+	ch := c.Manifest.Chain
+	if ch == nil {
+		return
+	}
+	cls["pom_chain"] = true
+	cls[fmt.Sprintf("pom_chain_depth_%d", len(ch.Ancestors))] = true
+	if ch.OmitGroup {
+		cls["pom_chain_manifest_inherits_group"] = true
+	}
+	if ch.OmitVersion {
+		cls["pom_chain_manifest_inherits_version"] = true
+	}
+	from, rel := ch.Path, ch.ParentRel
+	for i, a := range ch.Ancestors {
+		cls["pom_chain_link_"+universe.LinkFormName(from, rel, a.Path)] = true
+		from, rel = a.Path, a.ParentRel
+		if i+1 < len(ch.Ancestors) {
+			if a.Group == "" {
+				cls["pom_chain_middle_inherits_group"] = true
+			}
+			if a.Version == "" {
+				cls["pom_chain_middle_inherits_version"] = true
+			}
+			if a.Group == "" && a.Version == "" {
+				cls["pom_chain_middle_inherits_group_and_version"] = true
+			}
+		}
+	}
+	affected := map[string]bool{}
+	for _, v := range c.Vulns {
+		for _, a := range v.Affected {
+			affected[a.Package.Name] = true
+		}
+	}
+	for _, list := range [][]universe.Requirement{c.Manifest.Deps, c.Manifest.Management} {
+		for _, r := range list {
+			if r.Level == 0 {
+				continue
+			}
+			cls["pom_chain_requirement_in_ancestor"] = true
+			if affected[r.Name] {
+				cls["pom_chain_advisory_package_declared_in_ancestor"] = true
+				if ch.InheritsBelow(r.Level) {
+					cls["pom_chain_advisory_package_declared_behind_inheriting_pom"] = true
+				}
+			}
+		}
+	}
+}
+
+// c12ChainPatchClasses labels where the requirements an applied patch changes are declared.
+func c12ChainPatchClasses(c c12Case, p result.Patch, cls map[string]bool) {
+	ch := c.Manifest.Chain
+	if ch == nil {
+		return
+	}
+	cls["pom_chain_patch_applied"] = true
+	for _, u := range universe.UpdatesOf(p.PackageUpdates) {
+		declared := false
+		for _, list := range [][]universe.Requirement{c.Manifest.Deps, c.Manifest.Management} {
+			for _, r := range list {
+				if r.Name != u.Name {
+					continue
+				}
+				declared = true
+				switch {
+				case r.Level == 1:
+					cls["pom_chain_patch_changes_requirement_in_parent"] = true
+				case r.Level >= 2:
+					cls["pom_chain_patch_changes_requirement_in_grandparent"] = true
+				default:
+					cls["pom_chain_patch_changes_requirement_in_manifest"] = true
+				}
+				if r.Level > 0 && ch.InheritsBelow(r.Level) {
+					cls["pom_chain_patch_changes_requirement_behind_inheriting_pom"] = true
+				}
+			}
+		}
+		if !declared {
+			cls["pom_chain_patch_adds_management_entry"] = true
+		}
+	}
+}
+
+// c12WrittenClasses labels which files of a chain run 1 rewrote (path0: untouched copy).
+func c12WrittenClasses(c c12Case, path0, path1 string, cls map[string]bool) {
+	if c.Manifest.Chain == nil {
+		return
+	}
+	r0, r1 := manifestRoot(c.Manifest, path0), manifestRoot(c.Manifest, path1)
+	for i, f := range c.Manifest.Files() {
+		a, err0 := os.ReadFile(filepath.Join(r0, filepath.FromSlash(f.Path)))
+		b, err1 := os.ReadFile(filepath.Join(r1, filepath.FromSlash(f.Path)))
+		if err0 != nil || err1 != nil || bytes.Equal(a, b) {
+			continue
+		}
+		if i == 0 {
+			cls["pom_chain_run1_rewrote_manifest"] = true
+		} else {
+			cls["pom_chain_run1_rewrote_ancestor"] = true
+		}
+	}
+}
+
 // c12GraphClasses labels the original graph: dev/test requirements sharing their package
 // with production requirements, vulnerabilities confined to dev/test scope, vulnerabilities
 // on a shared node; and counts whether the reference analysis agrees with run 1 when the
@@ -160,6 +271,7 @@ func c12GraphClasses(c c12Case, g *resolve.Graph, ids1 map[string]bool, cls map[
 // differs from the one with all updates applied, i.e. whether the dev/test update matters
 // outside the dev/test-only part of the graph.
 func c12PatchClasses(c c12Case, w *universe.World, p result.Patch, cls map[string]bool) {
+	c12ChainPatchClasses(c, p, cls)
 	idOf := map[string]int{}
 	for i, v := range c.Vulns {
 		idOf[v.ID] = i
